@@ -570,13 +570,14 @@ func (m *mesh) checkpoint(label string, fs ...*member) bool {
 		}
 		m.mu.Unlock()
 		if m1 != nil && m3 != nil {
-			// the follower has begun the message holding s3 (its index is inside that message: it is
-			// reset to the message's start index on any mismatch), so everything up to s1 is applied;
+			// the follower has begun the message holding s3 (its index is at or beyond that message's
+			// start index: it is reset to a message's start index on any mismatch, and never exceeds
+			// the leader's), so everything up to s1 is applied;
 			// this does not depend on the follower's cache nor on its saves succeeding
 			msg := m3.decode()
 			if !m.waitFor(f.name+" to reach the message after the sentinel", func() bool {
 				n := f.sy.VerifHistory().NextIndex()
-				return n >= msg.GetStartIndex() && n <= msg.GetStartIndex()+uint64(len(msg.GetRegions()))
+				return n >= msg.GetStartIndex() && n <= m.ld.sy.VerifHistory().NextIndex()
 			}) {
 				return false
 			}
